@@ -489,6 +489,36 @@ func (e *enumeration) enumBM(thorough bool) {
 			}
 		}
 	}
+	// processors whose index differs from their domain index (domains used in another order, or one
+	// domain shared by two processors), with a shared object attached to both and different roles
+	for _, kind := range soKinds {
+		roles := soRoles[kind]
+		for r0 := range roles {
+			for r1 := range roles {
+				for _, domOf := range [][]int{{1, 0}, {0, 0}, {1, 1}, {1, 0, 1}} {
+					if !thorough && len(domOf) == 3 {
+						continue
+					}
+					j := Job{Kind: "bm", Group: "so-domain-map:" + kind, Real: true, DomainOf: domOf}
+					j.Procs = []ProcSpec{cpSpec(roles[r0], 1, 1), cpSpec(roles[r1], 1, 1)}
+					np := len(domOf)
+					var att []int
+					for p := 0; p < np; p++ {
+						att = append(att, p)
+						j.Links = append(j.Links, [2]int{p, 0})
+					}
+					j.SOs = []string{soCtor(kind, 0, att)}
+					j.In, j.Out = 1, 1
+					j.Bonds = append(j.Bonds, [2]string{"i0", "p0i0"})
+					for p := 0; p+1 < np; p++ {
+						j.Bonds = append(j.Bonds, [2]string{"p" + strconv.Itoa(p) + "o0", "p" + strconv.Itoa(p+1) + "i0"})
+					}
+					j.Bonds = append(j.Bonds, [2]string{"p" + strconv.Itoa(np-1) + "o0", "o0"})
+					e.jobs = append(e.jobs, j)
+				}
+			}
+		}
+	}
 	// two shared objects mixed (ordered pairs of kinds, the same kind twice included):
 	// both on one processor; one each on two processors; both on both processors
 	for _, k1 := range soKinds {
